@@ -12,22 +12,22 @@ CHECKS = {
         category='model_checking',
         text='TLC enumerates every document of the bounded builder model (Dom.tla) and evaluates the declarative '
              'semantics CssDecl.tla on a selector pool; every state is replayed into soupsieve.select/match and the '
-             'result list must equal the predicted relation in document order.',
+             'result list must equal the predicted relation in document order. The composed front end Lexer.tla -> ParseSel.tla -> Ir!Compile computes the IR of randomly SPELLED selector texts; Trace_Parse accepts iff the real parser built exactly that IR.',
         design_ref='§6 C01',
         note='Bounded: trees <= 4-5 nodes, selector pools per configuration; CssDecl.tla trusted as reading of '
              'Selectors 3/4; documents built through the bs4 API.',
-        technique='TLA+ reference semantics + TLC state enumeration, replayed into the implementation (spec->code conformance)'),
+        technique='TLA+ reference semantics + TLC state enumeration, replayed into the implementation (spec->code conformance); TLC trace validation of the real IR against Compile(ParseText(text))'),
     'C02': dict(
         category='model_checking',
         text='TLC enumerates every sibling row (<= 4-5 nodes over element a/b, text, comment; under an element, at top level, '
              'detached) x every (a, b) of a square x the four pseudo-classes x "of S" filters, and every accepted spelling of '
              '(a, b) from Nth.tla; the design-level theorems closed-form <=> exists n and ParseNth(Spell(a,b)) = (a,b) are '
              'TLC invariants; every state is replayed into soupsieve.select; random larger trees are recorded from the real '
-             'code and validated by TLC against CssDecl (Trace_Select).',
+             'code and validated by TLC against CssDecl (Trace_Select). Namespaced sibling rows with a default namespace in the caller map are part of the recorded traces; Trace_Parse binds the An+B texts (incl. the implied of *|*) to the IR.',
         design_ref='§6 C02',
         note='Bounded: |a|,|b| <= 7 exhaustively plus {100, 40000} (TLC 32-bit integers); rows <= 5; CssDecl.NthHolds trusted as '
              'the reading of Selectors 4 / CSS Syntax 3 An+B.',
-        technique='TLA+ An+B definition + micro-syntax, TLC enumeration replayed into the code; TLC trace validation of recorded selects'),
+        technique='TLA+ An+B definition + micro-syntax, TLC enumeration replayed into the code; TLC trace validation of recorded selects; Trace_Parse binding'),
     'C03': dict(
         category='model_checking',
         text='Api.tla states each entry point (select, iselect, select_one, match, filter(tag), filter(iterable), closest) as a '
@@ -60,7 +60,7 @@ CHECKS = {
              'per-list placement (negative model). Conformance is law-level trace validation: for every ordered pair of a '
              '69-atom pool (every pseudo-class the parser accepts, namespaces, custom alias, complex selectors) x document kinds '
              '(html.parser, html5lib, lxml, XHTML, XML; SVG subtree, iframe) x namespace maps, the real results of the 10 '
-             'compound forms are recorded and ListAlgebra.tla (atom rows inferred by TLC) accepts iff the Boolean laws explain them.',
+             'compound forms are recorded and ListAlgebra.tla (atom rows inferred by TLC) accepts iff the Boolean laws explain them. The same laws are also recorded under an explicit *|* subject (any-is-union, any-not, any-not-list), with atoms whose memoised fact is first asked about another element, and on the diagonal (A, A).',
         design_ref='§6 C05',
         note='Pairs (not triples) of atoms exhaustively in thorough, half of them in quick; complement laws are relative to the '
              'universe a top-level * has under the same namespace map; one fixed document per kind.',
@@ -73,7 +73,7 @@ CHECKS = {
              'patterns (so the real lru_cache(500) is observed as K=2); after every step cache_info() must equal the model state, the '
              'object must equal a fresh parse, == / hash must agree with model-key equality for every pair returned so far '
              '(including keys equal up to map insertion order), and every IR node must be hashable, reject setattr/delattr, and '
-             'survive pickle/copy/deepcopy with equal select results.',
+             'survive pickle/copy/deepcopy with equal select results. Caller-value part: the dictionaries passed to compile are mutated afterwards, the pattern text must be kept as given and different texts are different values.',
         design_ref='§6 C15',
         note='LRU bound observed through blocks (all-or-nothing); 5 model keys differing in one argument each + order variants; '
              'bool-vs-int flags and attribute-level access to the internal mapping objects are not gated.',
@@ -86,7 +86,7 @@ CHECKS = {
              'placement (negative model). Every behaviour TLC enumerates is replayed deterministically: a sys.settrace controller '
              'parks real threads at exactly those points and releases them in the behaviour\'s order; each call must return its '
              'single-threaded value and the cache must hold fresh parses. In addition one thread is pre-empted at Python line events '
-             '(compile, select, match, filter pairs) by a second thread running to completion.',
+             '(compile, select, match, filter pairs) by a second thread running to completion. Every bounded memo of the library is filled before the replays (capacity state), alias definitions carry salted attribute names, and the pairs that go through shared mutable state are pre-empted at every line in both tiers; a single-threaded call that fails after an interleaving counts as corrupted shared state.',
         design_ref='§6 C14',
         note='2 threads x 1-2 calls (quick), 3 threads / 2 calls with bounded switches (thorough); line-level pre-emption with one '
              'pre-emption; races inside a single bytecode or inside C code (lru_cache, re) cannot be forced from Python.',
@@ -124,7 +124,7 @@ CHECKS = {
              'reachable from module-level calls). TLC checks T-ImportSafe for every entry script (8 import forms, all ordered sequences of '
              'length <= 2-3) and prints each script\'s predicted outcome and module begin/end order; every script is run in a fresh '
              'interpreter (clean: exit status, exception, output, warnings, BeautifulSoup.select == soupsieve.select == same for every '
-             'order) and once with a sys.meta_path logger whose recorded order is compared with the model\'s.',
+             'order) and once with a sys.meta_path logger whose recorded order is compared with the model\'s. Every entry statement is also run under the interpreter configurations -O, -OO, -X dev, -W error, -B.',
         design_ref='§6 C16',
         note='Verdict comes from the interpreter run; model/interpreter disagreements are recorded as drift (static extraction is an '
              'over-approximation). CPython 3.12, bs4 4.15 as installed; reload/zipimport/frozen are out.',
@@ -136,7 +136,7 @@ CHECKS = {
              'spelling the same names/values in each case with and without i/s, for =, ~=, ^=, != and type/class/id; every state is replayed '
              'into soupsieve.select. The same logical tree parsed by html.parser, lxml, html5lib and lxml-xml (plain and XHTML) is projected '
              'back to an abstract document and the recorded selects - including every HTML-only pseudo-class on plain XML - are validated by '
-             'TLC against CssDecl (Trace_Select).',
+             'TLC against CssDecl (Trace_Select). Random trees with randomly re-cased names / values, built as HTML, XML and XHTML, against randomly re-cased selectors (Trace_Select); the HTML-only pseudo-classes are also asked with every inner element as call target.',
         design_ref='§6 C11',
         note='ASCII letters only (Python re.I is Unicode-wide, CSS is ASCII-insensitive: not gated); <= 2 children exhaustively.',
         technique='TLA+ reference semantics parameterised by document type; TLC enumeration replayed into the code; TLC validation of selects recorded on parser-built trees'),
@@ -146,7 +146,7 @@ CHECKS = {
              'namespace-aware documents (XML builder, html5-style XHTML root; element namespaces {none,U1,U2,XHTML}, document prefixes '
              'independent of the map, attributes in {none,U1,U2}) x 8 prefix maps x 21 element/attribute selector forms; every state is '
              'replayed into soupsieve.select; documents parsed by lxml-xml (default, prefixed, redeclared, undeclared) and html5lib '
-             'foreign content are projected back and the recorded selects validated by TLC.',
+             'foreign content are projected back and the recorded selects validated by TLC. Forms2: complex selectors whose non-subject compound has no type selector and lists of type-less alternatives inside :is/:not/:has/:nth-child(of) under every map; caller maps using the prefix "html" combined with HTML-only pseudo-classes.',
         design_ref='§6 C12',
         note='Namespace-aware trees only; <= 2 children exhaustively; selectors spelling a literal "p:a" attribute name via escapes are not generated.',
         technique='TLA+ namespace semantics; TLC enumeration replayed into the code; TLC validation of selects recorded on parser-built trees'),
@@ -188,11 +188,11 @@ CHECKS = {
              'MC_C06_chars enumerates every string of <= 2-3 symbols over a 42-class character alphabet (incl. NUL, C0/C1, surrogates, '
              'astral, escapes beyond U+10FFFF, comment openers, pseudo-class names) and sampled walks up to length 6-8; each is concretised '
              'with several representatives per class and compiled bare and inside 15 closed and unterminated contexts; oracle = outcome '
-             'class {compiled, SelectorSyntaxError, NotImplementedError, KeyError only for case-colliding custom names}.',
+             'class {compiled, SelectorSyntaxError, NotImplementedError, KeyError only for case-colliding custom names}. A pump part takes the repetitions of the token grammar (digit runs, identifier characters, white space, comment and string bodies): TLC checks PumpInvariant on Lexer.tla (token kinds do not depend on the run length, N <= 6/24), the code is run with the same sites pumped to 4 300 - 100 000 repetitions.',
         design_ref='§6 C06',
         note='Lexer.tla (character level) and Parser.tla (token level) are bound to the code by DEBUG token streams and outcomes; their agreement is recorded, not a verdict; '
              'Unicode abstracted by classes; nesting depth tiny compared to the recursion budget.',
-        technique='TLA+ resolver state machine with liveness checked by TLC; TLC-enumerated class strings and custom maps replayed into compile(); outcome-class oracle'),
+        technique='TLA+ resolver state machine with liveness checked by TLC; TLC-enumerated class strings and custom maps replayed into compile(); outcome-class oracle; TLC pump invariant + pumped replay'),
     'C20': dict(
         category='model_checking',
         text='ErrCtx.tla is the reading of the property (line breaks incl. CR LF as one, line, column, context with caret); seven theorems '
@@ -215,7 +215,7 @@ CHECKS = {
              'behaviours with type/result invariants; every enumerated string (3 representatives per class incl. U+0080, U+009F, surrogates, '
              'U+10FFFF) is replayed: real escape() never raises, #/./[a=] + escape(s) compile to exactly one id/class/attribute equal to s\', '
              'the intended element among near-misses is selected, surrounding selectors stay intact; seeded random identifiers of length 5-30 '
-             'are recorded and validated by TLC (Trace_C10).',
+             'are recorded and validated by TLC (Trace_C10). T-EscapeRoundTripImpl: the serialization also round-trips through the implementation-shaped Lexer.tla + ParseSel.tla (TLC invariant).',
         design_ref='§6 C10',
         note='Exhaustive only up to the length bounds and modulo the class abstraction; agreement of escape() with CSSOM byte-for-byte and of '
              'IdentLex with the recorded output are drift, the gate is the round trip the property states; empty identifier out of scope.',
@@ -240,12 +240,12 @@ CHECKS = {
              'six digits, hex+newline) with the swallow-one-whitespace rule, quote styles and bare identifiers, ASCII case of keywords and '
              'escapes inside pseudo-class names; TLC enumerates every spelling with <= 1 (quick) / 2 (thorough) deviating items of a 38-selector '
              'annotated pool covering every construct that has a slot and prints its text; law over the code: compile(spelling).selectors == '
-             'compile(canonical).selectors, equal select results on an HTML and an XML document, no syntax error for a respelling.',
+             'compile(canonical).selectors, equal select results on an HTML and an XML document, no syntax error for a respelling. T-SpellingIR (Compile(ParseText(respelling)) = Compile(ParseText(canonical)) through Lexer/ParseSel/Ir) is a TLC invariant of the same enumeration; random selectors of the whole grammar are respelled at random (escapes, quotes, bare values, line continuations, case, white space / comments) and compared by the law, and the texts inside the Ir grammar are validated by Trace_Parse.',
         design_ref='§6 C09',
         note='Slots are annotated by hand in the pool; deviations <= 2 per spelling; T-Spelling (every respelling lexes, per Lexer.tla, to the same '
              'token kinds and combinators as the canonical one) is a TLC invariant, and Lexer.tla is bound to the code by the DEBUG token stream of '
              'every respelling (agreement recorded, not a verdict); the verdict is the code-vs-code structural-equality law.',
-        technique='TLA+ rewrite-rule model; TLC-enumerated respellings compiled by the real parser; structural-equality law'),
+        technique='TLA+ rewrite-rule model; TLC-enumerated respellings compiled by the real parser; structural-equality law; T-SpellingIR invariant; Trace_Parse validation of randomly spelled texts'),
     'C07': dict(
         category='exploration',
         text='A TLA+ specification does not measure time; the check combines model checking of ambiguity with model-driven measurement. '
